@@ -174,6 +174,82 @@ def ip_expect(ipint, masklen, port):
             "port": 47808 if port is None else port}
 
 
+HEXD = set("0123456789abcdefABCDEF")
+DEC = set("0123456789")
+
+
+def _isdec(t):
+    return len(t) > 0 and all(c in DEC for c in t)
+
+
+def _hexpairs(h):
+    if len(h) == 0 or len(h) % 2 or any(c not in HEXD for c in h):
+        return None
+    return bytes(int(h[i:i + 2], 16) for i in range(0, len(h), 2))
+
+
+def _ref_station(t):
+    """station part -> octets | None (no notation) | 'skip' (no opinion)"""
+    if _isdec(t):
+        v = int(t)
+        return bytes([v]) if v <= 255 else None
+    if t.startswith("0x"):
+        return _hexpairs(t[2:])
+    if t.startswith("X'") and t.endswith("'") and len(t) >= 3:
+        return _hexpairs(t[2:-1])
+    # dotted quad [/mask] [:port]
+    port, mask = 47808, 32
+    if ":" in t:
+        t, p = t.split(":", 1)
+        if not _isdec(p):
+            return None
+        port = int(p)
+    if "/" in t:
+        t, m = t.split("/", 1)
+        if not _isdec(m):
+            return None
+        mask = int(m)
+    parts = t.split(".")
+    if len(parts) != 4 or not all(_isdec(q) for q in parts):
+        return None
+    if port > 65535 or mask > 32:
+        return None
+    if any(len(q) > 1 and q[0] == "0" for q in parts):
+        return "skip"       # inet_aton reads these as octal; ipaddress refuses them: no opinion
+    if any(int(q) > 255 for q in parts):
+        return None
+    return bytes(int(q) for q in parts) + struct.pack("!H", port)
+
+
+def ref_parse(s):
+    """Independent reference for the textual notations the property lists.
+    Returns [type, net, octets-hex] | None (not a notation: must be refused) | 'skip'.
+    Tolerated on purpose: ONE trailing newline (Python's `$`)."""
+    if s.endswith("\n"):
+        s = s[:-1]
+    if s == "*":
+        return [1, None, None]
+    if s == "*:*":
+        return [5, None, None]
+    groups = s.split(":")
+    if len(groups) == 6 and all(len(g) == 2 and _hexpairs(g) is not None for g in groups):
+        return [2, None, "".join(groups).lower()]
+    if ":" in s:
+        head, tail = s.split(":", 1)
+        if _isdec(head):
+            net = int(head)
+            if tail == "*":
+                return [3, net, None] if net <= 65534 else None
+            st = _ref_station(tail)
+            if st is None or net > 65534:
+                return None
+            return "skip" if st == "skip" else [4, net, st.hex()]
+    st = _ref_station(s)
+    if st is None:
+        return None
+    return "skip" if st == "skip" else [2, None, st.hex()]
+
+
 def generic_checks(ctx, case, a):
     """what must hold for every address the library hands out"""
     from bacpypes import pdu
@@ -199,7 +275,13 @@ def generic_checks(ctx, case, a):
         port = struct.unpack("!H", a.addrAddr[4:])[0]
         ipv = struct.unpack("!L", a.addrAddr[:4])[0]
         bt = a.addrBroadcastTuple
-        if not (a.addrPort == port == a.addrTuple[1] and bt[1] == port and a.addrIP == ipv):
+        import socket
+        th = a.addrTuple[0]
+        try:
+            th_ok = (socket.inet_aton(th) if th else bytes(4)) == a.addrAddr[:4]
+        except OSError:
+            th_ok = False
+        if not (a.addrPort == port == a.addrTuple[1] and bt[1] == port and a.addrIP == ipv and th_ok):
             ctx.fail("ip-incoherent", case,
                      "addrPort %r / addrTuple %r / broadcast %r disagree with octets %s" % (
                          a.addrPort, a.addrTuple, bt, a.addrAddr.hex()), port=a.addrPort)
@@ -227,6 +309,20 @@ def oracle(ctx, case, r, objs):
         exp = case.get("exp")
         if r["r"] == "ok":
             generic_checks(ctx, case, objs[0])
+        if case["c"]["k"] == "str" and "@" not in case["c"]["s"] and case["c"]["s"].isascii():
+            ref = ref_parse(case["c"]["s"])
+            if ref is None and r["r"] == "ok":
+                ctx.fail("not-refused", case, "text %r is none of the notations but is accepted as %r (printed %r)" % (
+                    case["c"]["s"], [r["ty"], r["net"], r["addr"]], r["str"]), why="reference-recogniser")
+                return
+            if isinstance(ref, list):
+                if r["r"] != "ok":
+                    ctx.fail("refused", case, "valid notation %r refused (%s); denotes %r" % (case["c"]["s"], r["k"], ref))
+                    return
+                if [r["ty"], r["net"], r["addr"]] != ref:
+                    ctx.fail("fields", case, "text %r yields %r, the notation denotes %r" % (
+                        case["c"]["s"], [r["ty"], r["net"], r["addr"]], ref))
+                    return
         if exp is None:
             return
         if exp == "refuse":
@@ -379,7 +475,7 @@ def gen_nets():
 def ip_pool(ctx, rng):
     edge = [0, 1, 0x01020304, 0x0A000001, 0x7F000001, 0x80000000, 0x7FFFFFFF, 0xC0A801FE,
             0xFFFFFFFE, 0xFFFFFFFF, 0x00FF00FF, 0xAAAAAAAA, 0x55555555, 0xFF000000]
-    n = 6 if ctx.quick else 120
+    n = 18 if ctx.quick else 120
     return edge + [rng.getrandbits(32) for _ in range(n)]
 
 
@@ -579,7 +675,7 @@ MUT = "0123456789abcdefABCDEFxX'*:./ \n-+,;_gG\t\\\"#"
 def gen_malformed(ctx, rng):
     cases = []
     seeds = valid_texts(rng)
-    n = 6000 if ctx.quick else 150000
+    n = 30000 if ctx.quick else 200000
     for _ in range(n):
         s = list(rng.choice(seeds))
         for _k in range(rng.choice([1, 1, 1, 2, 3])):
@@ -598,7 +694,7 @@ def gen_malformed(ctx, rng):
                 i = rng.randrange(len(s) + 1)
                 s = s[:i] + t[rng.randrange(len(t) + 1):]
         cases.append(mk(S("".join(s))))
-    m = 2000 if ctx.quick else 50000
+    m = 10000 if ctx.quick else 60000
     for _ in range(m):
         cases.append(mk(S("".join(rng.choice(MUT) for _ in range(rng.randrange(0, 9))))))
     return cases
